@@ -518,7 +518,11 @@ def _to_float_bits(v, src, dst):
     elif z3.is_bv(v):
         r = z3.fpSignedToFP(z3.RNE(), v, srt) if src.kind == "i" else z3.fpUnsignedToFP(z3.RNE(), v, srt)
     else:
-        r = z3.fpRealToFP(z3.RNE(), z3.ToReal(v), srt)
+        # Int-represented (bounded) integer: its float value is carried as an uninterpreted conversion of the integer, so that sums and
+        # products of such values stay integer arithmetic (exact below 2^53) and only a final division is abstract (DESIGN 3.3)
+        out = z3.Function("uf_i2f%d" % dst.bits, z3.IntSort(), z3.BitVecSort(dst.bits))(v)
+        e.notes.setdefault("i2f", {})[out.get_id()] = (out, v, src)
+        return out
     out = z3.fpToIEEEBV(r)
     if src.kind in "iu":
         e.notes.setdefault("i2f", {})[out.get_id()] = (out, v, src)      # for the exact int -> float -> int round trip
@@ -543,6 +547,14 @@ def _exact_int_of(v):
     memo = E().notes.get("i2f", {}).get(v.get_id())
     if memo is not None and memo[0].eq(v) and z3.is_int(memo[1]):
         return memo[1]
+    if z3.is_app(v) and v.decl().kind() == z3.Z3_OP_ITE:
+        a, b = _exact_int_of(v.arg(1)), _exact_int_of(v.arg(2))
+        if a is not None and b is not None:
+            return z3.If(v.arg(0), _lift(a), _lift(b))
+    if z3.is_bv_value(v):
+        import struct
+        fmt = {16: ("<e", "<H"), 32: ("<f", "<I"), 64: ("<d", "<Q")}[v.size()]
+        return _exact_int_of(struct.unpack(fmt[0], struct.pack(fmt[1], v.as_long()))[0])
     return None
 
 
@@ -566,6 +578,11 @@ def _fp_apply(n, vals, dt):
         if _py_all(x is not None for x in xs):
             r = _arith({"add": "add", "subtract": "sub", "multiply": "mul"}[n], xs[0], xs[1])
             return _to_float_bits(r, _I64, dt) if is_sym(r) else float(r)
+    if n == "true_divide" and dt.itemsize == 8:
+        xs = [_exact_int_of(v) for v in vals]
+        if _py_all(x is not None for x in xs) and _py_any(is_sym(x) for x in xs):
+            # quotient of two exact integers: numpy's float division, abstracted as an uninterpreted function of the two integers
+            return z3.Function("uf_idiv_f64", z3.IntSort(), z3.IntSort(), z3.BitVecSort(64))(_lift(xs[0]), _lift(xs[1]))
     E().has_bv = True
     fps = [_to_fp(v, dt) for v in vals]
     rm = z3.RNE()
@@ -2189,7 +2206,7 @@ def _ranks(keys_list, dts):
             lt, eq = False, True
             for ks, dt in zip(reversed(keys_list), reversed(dts)):
                 lt = _or(lt, _and(eq, _cmp("lt", ks[j], ks[i], dt)))
-                eq = _and(eq, _eq(ks[j], ks[i]))
+                eq = _and(eq, _cmp("eq", ks[j], ks[i], dt) if dt.kind == "f" else _eq(ks[j], ks[i]))     # floats: -0.0 == +0.0
             before = _or(lt, _and(eq, j < i))
             r = _arith("add", r, _ite(before, 1, 0))
         ranks.append(r)
@@ -2258,7 +2275,7 @@ def unique(a, return_counts=False, return_index=False, axis=None):
     perm = argsort(a, kind="mergesort" if return_index else None)     # numpy sorts stably when it has to report first occurrences
     s = a[perm]
     sc = s._cells()
-    first = [True] + [_not(_eq(sc[i], sc[i - 1])) for i in range(1, n)] if n else []
+    first = [True] + [(_cmp("ne", sc[i], sc[i - 1], a.dtype) if a.dtype.kind == "f" else _not(_eq(sc[i], sc[i - 1]))) for i in range(1, n)] if n else []
     vals, cnt = _compact(first, sc)
     u = ndarray(_Store(list(vals)), list(range(cnt)), (cnt,), a.dtype)
     outs = [u]
@@ -2373,7 +2390,13 @@ def histogram(*a, **k):
 def mean(a, axis=None):
     if _has_af(a):
         return _dispatch(mean, (a,), {} if axis is None else {"axis": axis})
-    raise ShimUnsupported("mean")
+    a = asarray(a)
+    if axis is not None and a.ndim > 1:
+        raise ShimUnsupported("mean over an axis of an nd array")
+    if a.size == 0:
+        raise ShimUnsupported("mean of an empty array")
+    f = a.ravel() if a.dtype.kind == "f" else a.ravel().astype(float64)     # numpy reduces integers with dtype=float64
+    return true_divide(add.reduce(f, axis=None), a.size)
 
 
 def std(*a, **k):
